@@ -15,7 +15,7 @@ def has_control(node):
     return False
 
 
-def ansi_edges(cfg):
+def ansi_edges(cfg, cls=None):
     """true edges of tests that establish 'this output is decorated'"""
     out = set()
     for e in cfg.nodes:
@@ -28,7 +28,41 @@ def ansi_edges(cfg):
             out.add(e.id)
         if e.kind == "T" and is_self_attr(e.ast, "_format_output"):
             out.add(e.id)
+        # a private predicate of the class that combines the two tests: the edge on which (supports or force) must hold
+        if cls is not None and e.kind in ("T", "F") and isinstance(e.ast, ast.Call) and isinstance(e.ast.func, ast.Attribute) and isinstance(e.ast.func.value, ast.Name) \
+                and e.ast.func.value.id == "self" and e.ast.func.attr in cls.methods and not e.ast.args:
+            h = cls.methods[e.ast.func.attr]
+            rets = q.returns(h)
+            if len(rets) == 1 and rets[0].value is not None:
+                pol = _implies_ansi(rets[0].value)
+                if pol is not None and (e.kind == "T") == pol:
+                    out.add(e.id)
     return out
+
+
+def _implies_ansi(expr):
+    """True / False: the truth value of ``expr`` (a boolean combination of self.supports_ansi() and <formatter>.force_ansi()) under
+    which 'supports or force' necessarily holds; None when neither value implies it or the expression has other atoms."""
+    def ev(e, env):
+        if isinstance(e, ast.Call) and isinstance(e.func, ast.Attribute) and e.func.attr in ("supports_ansi", "force_ansi") and not e.args:
+            if e.func.attr == "supports_ansi" and not (isinstance(e.func.value, ast.Name) and e.func.value.id == "self"):
+                raise ValueError
+            return env[e.func.attr]
+        if isinstance(e, ast.BoolOp):
+            vals = [ev(v, env) for v in e.values]
+            return all(vals) if isinstance(e.op, ast.And) else any(vals)
+        if isinstance(e, ast.UnaryOp) and isinstance(e.op, ast.Not):
+            return not ev(e.operand, env)
+        raise ValueError
+    try:
+        table = [(ev(expr, {"supports_ansi": a, "force_ansi": b}), a or b) for a in (False, True) for b in (False, True)]
+    except (ValueError, KeyError):
+        return None
+    for pol in (True, False):
+        rows = [ansi for val, ansi in table if val == pol]
+        if rows and all(rows):
+            return pol
+    return None
 
 
 def _has_ceil(cls, e, depth=0):
@@ -66,7 +100,7 @@ def control_code_rule(ctx, rule_id, reference=None):
     guarded_fn = {}
     for qn, (m, sites) in emitters.items():
         cfg = ctx.cfg(m)
-        ae = ansi_edges(cfg)
+        ae = ansi_edges(cfg, sec)
         ok = all(ae and cfg.all_paths_hit(cfg.entry.id, ae, [n.id]) for c in sites for n in cfg.nodes_of(c))
         guarded_fn[qn] = ok
     for qn, (m, sites) in sorted(emitters.items()):
@@ -78,7 +112,7 @@ def control_code_rule(ctx, rule_id, reference=None):
         bad = None
         for cs in callers:
             cfg = ctx.cfg(cs.caller)
-            ae = ansi_edges(cfg)
+            ae = ansi_edges(cfg, cs.caller.cls)
             if not (ae and all(cfg.all_paths_hit(cfg.entry.id, ae, [n.id]) for n in cfg.nodes_of(cs.node))):
                 bad = cs
         if callers and bad is None:
@@ -231,7 +265,7 @@ def run(ctx):
     # ---------------------------------------------------------------- R6
     r = ctx.rule("C15-R6", "UNIT", "two units are kept apart: the row counter counts terminal ROWS (a long line wraps into several), the content list holds "
                  "logical LINES (two entries each). No single value is used both to cut the content list and to change the row counter / move the cursor; "
-                 "and the row counter is only changed incrementally (+= rows, -= rows, = 0)", reference=3)
+                 "and the row counter is only changed incrementally (+= rows, -= rows, = 0)", reference=2)
     # the row counter: the field add_content increments by ceil(len / width)
     row_fields = set()
     for m in sec.methods.values():
